@@ -124,7 +124,33 @@ func (f *Fn) prov(e ast.Expr, depth int, busy map[*types.Var]bool) string {
 					if pi == -1 {
 						return "recv"
 					}
-					return fmt.Sprintf("%sparam#%d", pre, pi)
+					base := fmt.Sprintf("%sparam#%d", pre, pi)
+					// a parameter that is reassigned in the body can also hold those values
+					if busy[o] {
+						return base
+					}
+					defs := g.defsOf(o)
+					if len(defs) == 0 {
+						return base
+					}
+					busy[o] = true
+					set := map[string]bool{base: true}
+					for _, d := range defs {
+						s := g.enclosing(d.rhs).prov(d.rhs, depth+1, busy)
+						if d.multi {
+							s += fmt.Sprintf("#%d", d.idx)
+						}
+						for _, alt := range strings.Split(s, "|") {
+							set[alt] = true
+						}
+					}
+					delete(busy, o)
+					var ss []string
+					for s := range set {
+						ss = append(ss, s)
+					}
+					sort.Strings(ss)
+					return strings.Join(ss, "|")
 				}
 			}
 			if busy[o] {
